@@ -171,6 +171,29 @@ def check(prog, run):
                                "%s raised by %s is not handled by process_graphql_query (%s): the request raises instead of "
                                "returning an error response" % (name, f.qualname, sorted(handlers)))
 
+    # interprocedural form: library errors (GraphQLError family) that can leave execute() through resolved calls
+    UNREACHABLE_AFTER_VALIDATION = {
+        "UnknownType": "raised by Schema.get_type / get_type_from_literal for a type name the schema lacks: process_graphql_query validates first "
+                       "and KnownTypeNames / FragmentsOnCompositeTypes reject such documents",
+    }
+    mr3 = excflow.MayRaise(prog)
+    res = mr3.of(ex)
+    for exc, wit in sorted(res.items()):
+        if exc not in mr3.u.repo:
+            continue            # builtin exceptions here are defensive programming errors (TypeError for impossible kinds, ...), see DESIGN
+        caught = any(u.is_subclass(exc, h) for h in handlers)
+        r.instance("execute() may raise %s through resolved calls; handled: %s" % (exc, caught))
+        if caught:
+            continue
+        if exc in UNREACHABLE_AFTER_VALIDATION:
+            r.instance("%s exempt: %s" % (exc, UNREACHABLE_AFTER_VALIDATION[exc][:60]))
+            continue
+        origin = wit[-1] if wit else "?"
+        via = [w.split(" calls ")[-1] for w in wit if " calls " in w]
+        run.report(r, "%s:execute:escapes(%s)" % ("py_gql.execution.execute", exc), ex.where(),
+                   "%s can leave execute() (raised at %s, reached through %s) and none of process_graphql_query's handlers (%s) catches it: "
+                   "the request raises instead of returning an error response" % (exc, origin, " -> ".join(via[-4:]) or "execute", sorted(handlers)))
+
     # ---- K6 one error object per failure
     r = run.rule("K6", "every `raise <name>` in execution/** and the coercion utilities raises an object created for this failure "
                        "(handler-bound, or built in the same call): add_error stores the raised object and rewrites its path, so "
@@ -294,6 +317,9 @@ def check(prog, run):
     # ---- K9 resolver errors are contained at every nesting depth of deferred results (shared with C08.R13)
     from . import c09
     c09.check_guarded_flatten(prog, run, "K9")
+    # ---- K10 every runtime routes ResolverError AND its subclasses to the else_ callback (shared with C08.R2)
+    from . import c08
+    c08.check_map_value_contract(prog, run, "K10")
 
 
 def _defensive_default(raise_stmt):
